@@ -26,11 +26,12 @@
      A Go panic in the end blocker is [Panic] (the block is not committed).
    * oracle sets are created by the end blocker (rules 1 and 2 of isNeedOracleSetRequest are
      modelled; rule 3, the float power-diff, is the input bit [pd]); batches and outgoing bridge
-     calls are created / removed by abstract ops [AddBatch]/[DelBatch]/[AddCall]/[DelCall] (their
+     calls are created / removed by ops [AddBatch]/[DelBatch]/[AddCall]/[DelCall] (their
      real construction and resolution belong to other properties); pruneOracleSet is not modelled (it only deletes sets the slash cursor has
      already passed, and needs an observed oracle-set claim). *)
 From Coq Require Import ZArith List Bool.
 From FxV Require Import gen.Gen_OracleSlash.
+From FxV Require model.M_EndBlock model.M_OsetPhase.
 Import ListNotations.
 Open Scope Z_scope.
 
@@ -87,7 +88,9 @@ Record state := mkState {
   next_call : Z;
   (* history variables (never read by the transitions) *)
   burned : Z;                      (* total penalties burned *)
-  gov_und : Z -> Z                 (* per oracle: tokens undelegated by governance removal since the record was created *)
+  gov_und : Z -> Z;                (* per oracle: tokens undelegated by governance removal since the record was created *)
+  set_mem : Z -> list (Z * Z);     (* members (external id, normalised power) of the stored oracle set with this nonce *)
+  last_obs : option Z              (* nonce of LastObservedOracleSet (0x33); None = nil *)
 }.
 
 Inductive res := Ok (s : state) | Err (code : Z) | Panic.
@@ -126,11 +129,11 @@ Definition compute_power (s : state) : Z := sumZ (map power (online_recs s)).
 Definition set_recs (s : state) f := mkState (height s) (now s) (ubtime s) (vals s) (prm s) (proposal s) (keys s) f
   (by_bridger s) (by_ext s) (total_power s) (deleg s) (ubds s) (reds s) (bal_o s) (bal_d s) (sets s) (latest_set s)
   (slashed_set s) (last_slash_height s) (batches s) (slashed_batch_block s) (calls s) (slashed_call s) (next_call s)
-  (burned s) (gov_und s).
+  (burned s) (gov_und s) (set_mem s) (last_obs s).
 Definition set_power (s : state) p := mkState (height s) (now s) (ubtime s) (vals s) (prm s) (proposal s) (keys s) (recs s)
   (by_bridger s) (by_ext s) p (deleg s) (ubds s) (reds s) (bal_o s) (bal_d s) (sets s) (latest_set s)
   (slashed_set s) (last_slash_height s) (batches s) (slashed_batch_block s) (calls s) (slashed_call s) (next_call s)
-  (burned s) (gov_und s).
+  (burned s) (gov_und s) (set_mem s) (last_obs s).
 Definition refresh_power (s : state) : state := set_power s (compute_power s).
 
 Definition max_stake (p : params) : Z := p_threshold p * p_multiple p.
@@ -216,7 +219,7 @@ Definition set_vals_deleg (s : state) (V : vset) (dl : Z -> Z -> Z) : state :=
   mkState (height s) (now s) (ubtime s) V (prm s) (proposal s) (keys s) (recs s) (by_bridger s) (by_ext s)
     (total_power s) dl (ubds s) (reds s) (bal_o s) (bal_d s) (sets s) (latest_set s) (slashed_set s)
     (last_slash_height s) (batches s) (slashed_batch_block s) (calls s) (slashed_call s) (next_call s)
-    (burned s) (gov_und s).
+    (burned s) (gov_und s) (set_mem s) (last_obs s).
 
 (* ---------------- BondedOracle ---------------- *)
 Definition bond (s : state) (a b e v amt : Z) : res :=
@@ -238,7 +241,7 @@ Definition bond (s : state) (a b e v amt : Z) : res :=
                 (upd (bal_o s) a (bal_o s a - amt)) (bal_d s)
                 (sets s) (latest_set s) (slashed_set s) (last_slash_height s) (batches s)
                 (slashed_batch_block s) (calls s) (slashed_call s) (next_call s) (burned s)
-                (upd (gov_und s) a 0) in
+                (upd (gov_und s) a 0) (set_mem s) (last_obs s) in
     Ok (refresh_power s1)
   end.
 
@@ -273,7 +276,7 @@ Definition add_delegate (s : state) (a amt rw : Z) : res :=
                     (upd (bal_d s) a (bal_d s a + paid))
                     (sets s) (latest_set s) (slashed_set s) (last_slash_height s) (batches s)
                     (slashed_batch_block s) (calls s) (slashed_call s) (next_call s)
-                    (burned s + (if 0 <? sl then sl else 0)) (gov_und s) in
+                    (burned s + (if 0 <? sl then sl else 0)) (gov_und s) (set_mem s) (last_obs s) in
         Ok (refresh_power s1)
       end
   end.
@@ -305,7 +308,7 @@ Definition re_delegate (s : state) (a v rw : Z) : res :=
                   (ubds s) (reds s ++ [mkRed a v (now s + ubtime s)])
                   (bal_o s) (upd (bal_d s) a (bal_d s a + rw))
                   (sets s) (latest_set s) (slashed_set s) (last_slash_height s) (batches s)
-                  (slashed_batch_block s) (calls s) (slashed_call s) (next_call s) (burned s) (gov_und s))
+                  (slashed_batch_block s) (calls s) (slashed_call s) (next_call s) (burned s) (gov_und s) (set_mem s) (last_obs s))
           end
         end
       end
@@ -326,7 +329,7 @@ Definition edit_bridger (s : state) (a b : Z) : res :=
             (upd (upd (by_bridger s) (o_bridger r) None) b (Some a))
             (by_ext s) (total_power s) (deleg s) (ubds s) (reds s) (bal_o s) (bal_d s)
             (sets s) (latest_set s) (slashed_set s) (last_slash_height s) (batches s)
-            (slashed_batch_block s) (calls s) (slashed_call s) (next_call s) (burned s) (gov_und s))
+            (slashed_batch_block s) (calls s) (slashed_call s) (next_call s) (burned s) (gov_und s) (set_mem s) (last_obs s))
   end.
 
 (* ---------------- WithdrawReward ---------------- *)
@@ -344,7 +347,7 @@ Definition withdraw_reward (s : state) (a rw : Z) : res :=
               (recs s) (by_bridger s) (by_ext s) (total_power s) (deleg s) (ubds s) (reds s)
               (upd (bal_o s) a (bal_o s a + bal)) (upd (bal_d s) a 0)
               (sets s) (latest_set s) (slashed_set s) (last_slash_height s) (batches s)
-              (slashed_batch_block s) (calls s) (slashed_call s) (next_call s) (burned s) (gov_und s))
+              (slashed_batch_block s) (calls s) (slashed_call s) (next_call s) (burned s) (gov_und s) (set_mem s) (last_obs s))
   end.
 
 (* ---------------- UnbondedOracle ---------------- *)
@@ -371,7 +374,7 @@ Definition unbond (s : state) (a : Z) : res :=
               (upd (bal_o s) a (bal_o s a + send)) (upd (bal_d s) a 0)
               (sets s) (latest_set s) (slashed_set s) (last_slash_height s) (batches s)
               (slashed_batch_block s) (calls s) (slashed_call s) (next_call s)
-              (burned s + (if 0 <? sl then sl else 0)) (gov_und s))
+              (burned s + (if 0 <? sl then sl else 0)) (gov_und s) (set_mem s) (last_obs s))
   end.
 
 (* ---------------- UpdateChainOracles / UpdateProposalOracles ---------------- *)
@@ -399,7 +402,7 @@ Definition gov_unbond1 (rws : list (Z * Z)) (acc : option state) (r : oracle) : 
                 (bal_o s) (upd (bal_d s) a (bal_d s a + lookup_rw a rws))
                 (sets s) (latest_set s) (slashed_set s) (last_slash_height s) (batches s)
                 (slashed_batch_block s) (calls s) (slashed_call s) (next_call s) (burned s)
-                (upd (gov_und s) a (gov_und s a + back)))
+                (upd (gov_und s) a (gov_und s a + back)) (set_mem s) (last_obs s))
       end
     end
   end.
@@ -419,7 +422,7 @@ Definition gov_set (s : state) (l : list Z) (rws : list (Z * Z)) : res :=
                   (recs s) (by_bridger s) (by_ext s) (total_power s) (deleg s) (ubds s) (reds s)
                   (bal_o s) (bal_d s) (sets s) (latest_set s) (slashed_set s) (last_slash_height s)
                   (batches s) (slashed_batch_block s) (calls s) (slashed_call s) (next_call s)
-                  (burned s) (gov_und s) in
+                  (burned s) (gov_und s) (set_mem s) (last_obs s) in
       match fold_left (gov_unbond1 rws) gone (Some s1) with
       | Some s2 => Ok s2
       | None => Err e_staking
@@ -436,7 +439,7 @@ Definition set_params (s : state) (p : params) : res :=
              (recs s) (by_bridger s) (by_ext s) (total_power s) (deleg s) (ubds s) (reds s)
              (bal_o s) (bal_d s) (sets s) (latest_set s) (slashed_set s) (last_slash_height s)
              (batches s) (slashed_batch_block s) (calls s) (slashed_call s) (next_call s)
-             (burned s) (gov_und s)).
+             (burned s) (gov_und s) (set_mem s) (last_obs s)).
 
 (* ---------------- confirms ---------------- *)
 Definition find_obj (n : Z) (l : list obj) : option obj := find (fun x => ob_nonce x =? n) l.
@@ -454,7 +457,7 @@ Definition set_objs (s : state) (k : kind) (l : list obj) : state :=
     (bal_o s) (bal_d s)
     (match k with KSet => l | _ => sets s end) (latest_set s) (slashed_set s) (last_slash_height s)
     (match k with KBatch => l | _ => batches s end) (slashed_batch_block s)
-    (match k with KCall => l | _ => calls s end) (slashed_call s) (next_call s) (burned s) (gov_und s).
+    (match k with KCall => l | _ => calls s end) (slashed_call s) (next_call s) (burned s) (gov_und s) (set_mem s) (last_obs s).
 
 (* ConfirmHandler -> ValidateConfirmSign; [sig_ok] = the signature recovers to the external address *)
 Definition confirm (s : state) (k : kind) (n b e : Z) (sig_ok : bool) : res :=
@@ -490,10 +493,19 @@ Definition add_call (s : state) : res :=
         (bal_o s) (bal_d s) (sets s) (latest_set s) (slashed_set s) (last_slash_height s)
         (batches s) (slashed_batch_block s)
         (calls s ++ [mkObj (next_call s) (height s) []]) (slashed_call s) (next_call s + 1)
-        (burned s) (gov_und s)).
+        (burned s) (gov_und s) (set_mem s) (last_obs s)).
 
 Definition del_call (s : state) (n : Z) : res :=
   Ok (set_objs s KCall (filter (fun x => negb (ob_nonce x =? n)) (calls s))).
+
+(* UpdateOracleSetExecuted (an observed OracleSetUpdatedClaim for set n with the stored members) *)
+Definition observe_set (s : state) (n : Z) : res :=
+  if negb (n =? 0) && negb (existsb (fun x => ob_nonce x =? n) (sets s)) then Err e_invalid
+  else Ok (mkState (height s) (now s) (ubtime s) (vals s) (prm s) (proposal s) (keys s)
+             (recs s) (by_bridger s) (by_ext s) (total_power s) (deleg s) (ubds s) (reds s)
+             (bal_o s) (bal_d s) (sets s) (latest_set s) (slashed_set s) (last_slash_height s)
+             (batches s) (slashed_batch_block s) (calls s) (slashed_call s) (next_call s)
+             (burned s) (gov_und s) (set_mem s) (Some n)).
 
 (* OutgoingTxBatchExecuted (an observed SendToExternalClaim for batch id): older batches of the token are
    cancelled, the executed one is deleted together with its confirms; younger batches stay as they are *)
@@ -528,7 +540,7 @@ Definition export_import (s : state) : res :=
               (fold_left (fun m x => Z.max m (ob_nonce x)) (sets s) 0)
               (slashed_set s) 0
               (map (import_conf ex) (batches s)) (slashed_batch_block s)
-              [] 0 (next_call s) (burned s) (gov_und s) in
+              [] 0 (next_call s) (burned s) (gov_und s) (set_mem s) (last_obs s) in
   Ok (refresh_power s1).
 
 (* staking Keeper.Slash at the current height (no unbonding entries / redelegations are touched): the validator
@@ -549,7 +561,7 @@ Definition fund (s : state) (a amt : Z) : res :=
         (recs s) (by_bridger s) (by_ext s) (total_power s) (deleg s) (ubds s) (reds s)
         (upd (bal_o s) a (bal_o s a + amt)) (bal_d s) (sets s) (latest_set s) (slashed_set s)
         (last_slash_height s) (batches s) (slashed_batch_block s) (calls s) (slashed_call s)
-        (next_call s) (burned s) (gov_und s)).
+        (next_call s) (burned s) (gov_und s) (set_mem s) (last_obs s)).
 
 (* ---------------- end blocker ---------------- *)
 (* loop state of keeper.slashing: the record store, LastOracleSlashBlockHeight, hasSlash *)
@@ -626,7 +638,7 @@ Definition staking_end (s : state) (t_end : Z) : state :=
     (filter (fun r => negb (r_time r <=? t_end)) (reds s))
     (bal_o s) (fun a => bal_d s a + matured_sum t_end (ubds s) a)
     (sets s) (latest_set s) (slashed_set s) (last_slash_height s) (batches s) (slashed_batch_block s)
-    (calls s) (slashed_call s) (next_call s) (burned s) (gov_und s).
+    (calls s) (slashed_call s) (next_call s) (burned s) (gov_und s) (set_mem s) (last_obs s).
 
 (* keeper.slashing: None = a loop panics *)
 Definition slashing (s : state) : option state :=
@@ -643,34 +655,75 @@ Definition slashing (s : state) : option state :=
                 (bal_o s) (bal_d s) (sets s) (latest_set s)
                 (last_or ob_nonce (due_of s KSet) (slashed_set s)) (l_lsh st3)
                 (batches s) (last_or ob_height (due_of s KBatch) (slashed_batch_block s))
-                (calls s) (last_or ob_nonce (due_of s KCall) (slashed_call s)) (next_call s) (burned s) (gov_und s) in
+                (calls s) (last_or ob_nonce (due_of s KCall) (slashed_call s)) (next_call s) (burned s) (gov_und s) (set_mem s) (last_obs s) in
     Some (if l_has st3 then refresh_power s1 else s1).
 
-(* createOracleSetRequest *)
-Definition create_set (s : state) (pd : bool) : state :=
-  let need := match find_obj (latest_set s) (sets s) with None => true | Some _ => false end
-              || (last_slash_height s =? height s) || pd in
-  if need && has_power s
-  then refresh_power
-         (mkState (height s) (now s) (ubtime s) (vals s) (prm s) (proposal s) (keys s)
-            (recs s) (by_bridger s) (by_ext s) (total_power s) (deleg s) (ubds s) (reds s)
-            (bal_o s) (bal_d s)
-            (sets s ++ [mkObj (latest_set s + 1) (height s) []]) (latest_set s + 1)
-            (slashed_set s) (last_slash_height s) (batches s) (slashed_batch_block s)
-            (calls s) (slashed_call s) (next_call s) (burned s) (gov_und s))
-  else s.
+(* createOracleSetRequest.  GetCurrentOracleSet: online oracles with power > 0, power normalised to
+   power * MaxUint32 / total.  isNeedOracleSetRequest (no latest set / an oracle was slashed in this block /
+   the float power difference rendered with %.8f reaches OracleSetUpdatePowerChangePercent) is
+   model.M_OsetPhase.need_request, the bit-exact model built for property C07; None = it panics. *)
+Definition max_u32 : Z := 4294967295.
+Definition power_change_pct : Z := 10 ^ 17.     (* Params.OracleSetUpdatePowerChangePercent, default 0.1, never changed here *)
+
+Definition current_members (s : state) : list (Z * Z) :=
+  let ms := filter (fun r => 0 <? power r) (online_recs s) in
+  let total := sumZ (map power ms) in
+  map (fun r => (o_ext r, (power r * max_u32) / total)) ms.
+
+Definition need_set (s : state) : option bool :=
+  let latest := match find_obj (latest_set s) (sets s) with
+                | Some _ => Some (set_mem s (latest_set s))
+                | None => None
+                end in
+  match M_OsetPhase.need_request (current_members s) latest (last_slash_height s =? height s) power_change_pct with
+  | M_EndBlock.Ok b => Some b
+  | M_EndBlock.Panic => None
+  end.
+
+Definition create_set (s : state) : option state :=
+  match need_set s with
+  | None => None
+  | Some need =>
+    Some (if need && has_power s
+          then refresh_power
+                 (mkState (height s) (now s) (ubtime s) (vals s) (prm s) (proposal s) (keys s)
+                    (recs s) (by_bridger s) (by_ext s) (total_power s) (deleg s) (ubds s) (reds s)
+                    (bal_o s) (bal_d s)
+                    (sets s ++ [mkObj (latest_set s + 1) (height s) []]) (latest_set s + 1)
+                    (slashed_set s) (last_slash_height s) (batches s) (slashed_batch_block s)
+                    (calls s) (slashed_call s) (next_call s) (burned s) (gov_und s)
+                    (upd (set_mem s) (latest_set s + 1) (current_members s)) (last_obs s))
+          else s)
+  end.
+
+(* pruneOracleSet: once an oracle set has been observed on the external chain, older sets that are past the
+   signed window are deleted together with their confirms *)
+Definition prune_sets (s : state) : state :=
+  match last_obs s with
+  | None => s
+  | Some lo =>
+    if height s <? p_window (prm s) then s
+    else set_objs s KSet
+           (filter (fun x => negb ((ob_height x <? height s - p_window (prm s)) && (ob_nonce x <? lo))) (sets s))
+  end.
 
 Definition next_block (s : state) (t_next : Z) : state :=
   mkState (height s + 1) t_next (ubtime s) (vals s) (prm s) (proposal s) (keys s)
     (recs s) (by_bridger s) (by_ext s) (total_power s) (deleg s) (ubds s) (reds s)
     (bal_o s) (bal_d s) (sets s) (latest_set s) (slashed_set s) (last_slash_height s)
     (batches s) (slashed_batch_block s) (calls s) (slashed_call s) (next_call s)
-    (burned s) (gov_und s).
+    (burned s) (gov_und s) (fun _ => []) None.
 
+(* [pd] is what the real chain did (whether it stored a new oracle set in this block); it is recorded with the
+   operation but no longer read: the request rule is computed *)
 Definition end_block (s : state) (t_end t_next : Z) (pd : bool) : res :=
   match slashing (staking_end s t_end) with
   | None => Panic
-  | Some s2 => Ok (next_block (create_set s2 pd) t_next)
+  | Some s2 =>
+    match create_set s2 with
+    | None => Panic
+    | Some s3 => Ok (next_block (prune_sets s3) t_next)
+    end
   end.
 
 (* ---------------- operations ---------------- *)
@@ -693,6 +746,7 @@ Inductive op :=
 | EnvVal (v tok shr : Z)
 | ExecBatch (id : Z)
 | ExportImport
+| ObserveSet (n : Z)
 | EndBlock (t_end t_next : Z) (pd : bool).
 
 Definition step (s : state) (o : op) : res :=
@@ -715,6 +769,7 @@ Definition step (s : state) (o : op) : res :=
   | EnvVal v tok shr => env_val s v tok shr
   | ExecBatch id => exec_batch s id
   | ExportImport => export_import s
+  | ObserveSet n => observe_set s n
   | EndBlock t1 t2 pd => end_block s t1 t2 pd
   end.
 
@@ -726,4 +781,4 @@ Definition run (s : state) (ops : list op) : state := fold_left exec ops s.
 
 Definition init (h t ub : Z) (vs : vset) (p : params) : state :=
   mkState h t ub vs p [] [] (fun _ => None) (fun _ => None) (fun _ => None) 0
-    (fun _ _ => 0) [] [] (fun _ => 0) (fun _ => 0) [] 0 0 0 [] 0 [] 0 1 0 (fun _ => 0).
+    (fun _ _ => 0) [] [] (fun _ => 0) (fun _ => 0) [] 0 0 0 [] 0 [] 0 1 0 (fun _ => 0) (fun _ => []) None.
